@@ -43,9 +43,13 @@ CLAIMED["C18"] = dict(
          "foreign exception, KeyboardInterrupt) to the six-sub-step machine and prescribes the caller-visible outcome and the state at the "
          "stop; TLC checks StopIsConsistent exhaustively at w=8 over every image x input x k x kind and every stop is replayed on every engine "
          "configuration (outcome class, exception identity/cause, device-side call record, output, op count, last-ops list, post-stop memory); "
-         "generated IO-heavy images at all widths are judged record by record by TLC (Trace_FJFaults).",
-    note="Trusted: FJMachineFaults.tla; the harness's faulty device. Interrupts are modelled as KeyboardInterrupt raised by the device at a call; "
-         "asynchronous signals delivered between ops are not yet replayed. When an exception propagates, op count and last-ops list are not observable.",
+         "generated IO-heavy images at all widths are judged record by record by TLC (Trace_FJFaults). Real interrupts: a signal raising "
+         "KeyboardInterrupt is delivered at seeded times into non-terminating programs whose state recurs, on every engine configuration; TLC "
+         "(Trace_FJPeriodic) steps the machine through prefix and period, reduces the reported op count K into that window (any K is accepted) and "
+         "classifies the observation: the state after K ops / cut inside op K+1 (every component is that of some sub-step) / neither.",
+    note="Trusted: FJMachineFaults.tla; the harness's faulty device; SIGALRM standing in for SIGINT. When an exception propagates, op count and "
+         "last-ops list are not observable. Interrupts that arrive outside the run loop (file loading, teardown) are not judged. Known findings: "
+         "KF-2 (native: empty last-ops list on interrupt), KF-6 (Python loops can be cut inside an op by a real signal; racy).",
     ref="DESIGN.md section 2 (C18)",
     technique="TLA+ spec with fault-injection actions + TLC exhaustive model checking; spec->code replay and TLC trace validation of recorded fault runs")
 
